@@ -45,7 +45,7 @@ func init() {
 		Technique: "runtime monitor: metamorphic comparison of two real Parse(+Dispatch) executions (A vs A ++ `--` ++ T) with the intended-outcome fold as absolute anchor on both sides",
 		Rule: "case = prefix A ending in each context class (positional, flag, satisfied scalar, optional-value option without value, multi-value option below max for all 4 element types, command token, unknown option, empty, option whose still-missing mandatory value is `--`) " +
 			"+ hostile tail T (known option names with values, command names, unknown options, ambiguous prefixes, further `--`, arbitrary text); all mode products; distinct = (modes, context, item shapes, tail length); non-trivial = T is not empty",
-		Cases: func(tier string) int { return tierN(tier, 20000, 400000) },
+		Cases: func(tier string) int { return tierN(tier, 20000, 2400000) },
 		Run: func(seed uint64, idx int, tier string) *fw.Result {
 			want := c04Contexts[idx%len(c04Contexts)]
 			for attempt := 0; ; attempt++ {
@@ -55,6 +55,7 @@ func init() {
 				pc.Unknowns = []int{(idx / 27) % 3}
 				pc.ReqOrder = (idx/81)%3 == 0
 				pc.FnLess = false
+				pc.Valid = 15
 				p := GenProg(r, pc)
 				if pc.ReqOrder {
 					p.ReqOrder = true
@@ -67,8 +68,12 @@ func init() {
 				if want == "empty" {
 					sc.MinItems, sc.MaxItems = 0, 0
 				}
-				if want == "mandatory-takes-dashdash" {
-					sc.InjectAt = r.Intn(3)
+				if want == "mandatory-takes-dashdash" || ((want == "optbare" || want == "multi-open") && idx%2 == 0) {
+					// (for the open contexts: a first `--` that is an option's value in front, the real terminator behind the open item)
+					sc.InjectAt = 0
+					if want == "mandatory-takes-dashdash" {
+						sc.InjectAt = r.Intn(3)
+					}
 					sc.Inject = func(g *ScenGen, prev *Item) *Item {
 						var cands []*Opt
 						for _, o := range g.Node().Visible {
